@@ -190,12 +190,14 @@ theorem pullPackResp_error_kind {s : Server} {f : Flight} {e : ErrKind} (h : pul
     · injection h with h; subst h
       unfold preparePackCore at he'
       split at he'
-      · simp at he'
+      · injection he' with he'; exact Or.inl he'.symm
       · split at he'
-        · injection he' with he'; exact Or.inl he'.symm
+        · simp at he'
         · split at he'
-          · injection he' with he'; exact Or.inr he'.symm
-          · split at he' <;> simp at he'
+          · injection he' with he'; exact Or.inl he'.symm
+          · split at he'
+            · injection he' with he'; exact Or.inr he'.symm
+            · split at he' <;> simp at he'
 
 /-- a failing `PushPull` reports a pack-level error unless `UpdateDocStatus` rejected -/
 theorem pushPull_error_kind {s s' : Server} {f : Flight} {e : ErrKind} {loaded : Client}
